@@ -421,6 +421,7 @@ def gen_chain_group(rng, fmt, opt, gmode, jlevel, placement):
         if vals[k] in SAME:
             vals.insert(k + 1, SAME[vals[k]])
     levels = []
+    with_other = other != "nosuchfield" and rng.random() < 0.5
     for v in vals:
         if gmode == "none":
             levels.append([f"{target}:{v}"])
@@ -429,7 +430,7 @@ def gen_chain_group(rng, fmt, opt, gmode, jlevel, placement):
         elif gmode.startswith("g-after"):
             levels.append([f"{target}:{v}", g])
         elif gmode == "global-chain":
-            levels.append([v] if other == "nosuchfield" else rng.choice([[v], [v, f"{other}:{pool[-1]}"]]))
+            levels.append([v, f"{other}:{pool[-1]}"] if with_other else [v])
         else:                          # "g0+field"
             levels.append([zero_lit(rng), f"{target}:{v}"])
     oopt = "atol" if opt == "rtol" else "rtol"
